@@ -110,7 +110,7 @@ def query_text(ob):
     return txt
 
 
-def run_one(text, timeout=TIMEOUT, want_all=False):
+def run_one(text, timeout=TIMEOUT, want_all=False, cover=False):
     """portfolio: all solvers start together on the same SMT-LIB text; the first definitive answer wins
     (with want_all every solver is awaited, to detect disagreement).  returns (verdict, backend, seconds, details)"""
     fd, path = tempfile.mkstemp(suffix=".smt2", prefix="pyvc_")
@@ -137,9 +137,11 @@ def run_one(text, timeout=TIMEOUT, want_all=False):
                     ans = out[0].strip() if out else "unknown"
                     if ans not in ("sat", "unsat"):
                         ans = "unknown"
-                    if ans == "sat" and name.startswith("z3-4") and "(lambda" in text:
+                    if ans == "sat" and name.startswith("z3-4") and "(lambda" in text and not cover:
                         # z3 4.8.12 does not treat lambda terms extensionally: it reports `sat` on valid goals that need
-                        # (lambda x. t) = (lambda x. t') from t = t' (observed on dict-restriction terms).  Its `unsat` is kept.
+                        # (lambda x. t) = (lambda x. t') from t = t' (observed on dict-restriction terms).  Its `unsat` is kept, and so is
+                        # its `sat` on COVER queries (vacuity guards: a spurious model there can only weaken the guard, it cannot turn
+                        # into a verdict or an alarm; contracts with native witnesses do not depend on it).
                         ans = "unknown"
                     results.append((name, ans, time.time() - t1))
                     pending.remove(item)
@@ -173,8 +175,8 @@ def discharge(obligations, jobs=None, want_all=False):
     texts = [query_text(ob) for ob in obligations]
     with ThreadPoolExecutor(max_workers=jobs) as pool:
         # covers (satisfiability of a path condition) are vacuity guards with a native-witness fallback: a shorter budget suffices
-        cover_t = int(os.environ.get("PYVC_COVER_TIMEOUT", "25"))
-        outs = list(pool.map(lambda p: run_one(p[0], timeout=(cover_t if p[1].expect_sat else TIMEOUT), want_all=want_all), zip(texts, obligations)))
+        cover_t = int(os.environ.get("PYVC_COVER_TIMEOUT", "45"))
+        outs = list(pool.map(lambda p: run_one(p[0], timeout=(cover_t if p[1].expect_sat else TIMEOUT), want_all=want_all, cover=p[1].expect_sat), zip(texts, obligations)))
     for ob, (verdict, backend, secs, details) in zip(obligations, outs):
         ob.backend, ob.time, ob.details = backend, secs, details
         if verdict == "inconsistent":
